@@ -135,6 +135,9 @@ def check(ctx, tree, leaves0, dsl, cfg):  # noqa: C901, PLR0912
 
 
 def run_shard(ctx):
+    from mc.props.C12 import type_sweep  # noqa: PLC0415
+
+    type_sweep(ctx, PROP)  # exact-type rule for ordinary builtin leaf types registered as custom nodes
     e1.drive(ctx, ctx.tier, lambda tree, leaves, dsl, cfg: check(ctx, tree, leaves, dsl, cfg))
 
 
